@@ -19,6 +19,8 @@ VERIF = os.path.dirname(os.path.dirname(os.path.abspath(__file__)))
 REPO = os.environ.get("SKFEM_REPO", "/repo")
 VENV_PY = "/venv/bin/python"
 
+MAX_REPORTED = 12   # VIOLATION lines per run (all refuted obligations are listed in the evidence file)
+MAX_REPLAYS = 6     # native replays per run
 DISCHARGED, REFUTED, UNKNOWN, UNSUPPORTED, ERROR = "discharged", "refuted", "unknown", "unsupported", "error"
 
 
@@ -227,6 +229,7 @@ def run_property(prop, tier="quick", seed=0, only=None, jobs=None):
     assumptions = sorted({a for r in results for a in r["assumptions"]} | set(getattr(mod, "ASSUMPTIONS", [])))
 
     lines, violations, known_hits, undecided, errors = [], 0, [], [], []
+    n_refuted, suppressed = 0, []
     th = tree_hash()
     for o in obs:
         if o["status"] == DISCHARGED:
@@ -238,7 +241,12 @@ def run_property(prop, tier="quick", seed=0, only=None, jobs=None):
                 lines.append("KNOWN-FINDING: property=%s %s (%s)" % (prop, f.get("what", o["id"]), o["id"]))
                 continue
             confirmed, native = None, None
-            if o.get("replay"):
+            n_refuted += 1
+            if n_refuted > MAX_REPORTED:
+                suppressed.append(o["id"])
+                violations += 1
+                continue
+            if o.get("replay") and n_refuted <= MAX_REPLAYS:
                 try:
                     o["replay"] = dict(o["replay"])
                     o["replay"].setdefault("point", _model_floats(o.get("model") or {}))
@@ -283,6 +291,9 @@ def run_property(prop, tier="quick", seed=0, only=None, jobs=None):
             lines.append("VIOLATION property=%s replay=%s" % (prop, path))
             lines.append("  bounded stand-in '%s' failed: %s" % (s["what"], wit[:400]))
 
+    if suppressed:
+        lines.append("  ... %d further refuted obligations (listed in the evidence file under coverage.refuted): %s ..."
+                     % (len(suppressed), ", ".join(suppressed[:6])))
     n_ob = len(obs)
     n_dis = sum(1 for o in obs if o["status"] == DISCHARGED)
     if n_ob == 0 and not standins:
@@ -332,6 +343,7 @@ def run_property(prop, tier="quick", seed=0, only=None, jobs=None):
             samples=samples or [dict(standin=s["what"], sample=s["samples"][:1]) for s in standins][:5],
             exhaustive=False,
             open_known_findings=sorted(set(known_hits)), undecided=undecided, checker_errors=errors,
+            refuted=[o["id"] for o in obs if o["status"] == REFUTED],
             tree=th, units=[dict(unit=r["unit"], wall_s=r["wall_s"], obligations=len(r["obs"])) for r in results],
         ),
         assumptions=assumptions,
